@@ -110,6 +110,19 @@ def run(ctx: core.Ctx):
     ec.selftest()
     memo: dict = {}
     try:
+        # Every combination must work whatever was computed before it in the same process: start from the
+        # configuration with everything switched off (so that anything remembered from the first call is the
+        # opposite of what the later configurations need), then the defaults, then the rest.
+        off = dict(ec.DEFAULTS())
+        for k in off:
+            if k.endswith('_enabled'):
+                off[k] = False
+            elif k.endswith('_method'):
+                off[k] = 'none'
+        for cfg in (off, dict(ec.DEFAULTS())):
+            for which in TRAJS:
+                check_one(ctx, cfg, which, enumerated=True, memo=memo)
+        ctx.label('history.all_off_first')
         if ctx.quick:
             rows = ec.pairwise_array(ctx.seed)
             ctx.extra['pairwise_rows'] = len(rows)
